@@ -66,6 +66,85 @@ Proof.
   unfold visible_from. rewrite filter_In, in_seq, not_in_spec. intuition lia.
 Qed.
 
+(* ---------- the visible modes from m on are the user modes mode, mode+1, ... ---------- *)
+Lemma count_lt_S (I : list nat) x : NoDup I ->
+  length (filter (fun i => i <? S x) I) = length (filter (fun i => i <? x) I) + (if memb x I then 1 else 0).
+Proof.
+  induction I as [|a I IH]; intros Hn; [reflexivity|]. inversion Hn as [|? ? Ha Hn']; subst.
+  specialize (IH Hn'). cbn [filter]. unfold memb in *. cbn [existsb].
+  destruct (Nat.eqb_spec x a) as [->|Hne].
+  - replace (a <? S a) with true by (symmetry; apply Nat.ltb_lt; lia). rewrite Nat.ltb_irrefl. cbn [orb length].
+    replace (existsb (Nat.eqb a) I) with false in IH; [lia|].
+    symmetry. destruct (existsb (Nat.eqb a) I) eqn:E; [|reflexivity].
+    exfalso. apply Ha. apply existsb_exists in E as (y & Hy & Ey). apply Nat.eqb_eq in Ey. subst. exact Hy.
+  - cbn [orb]. destruct (Nat.ltb_spec a (S x)), (Nat.ltb_spec a x); cbn [length]; destruct (existsb (Nat.eqb x) I); lia.
+Qed.
+
+Lemma below_freec (I : list nat) x : NoDup I ->
+  (Z.of_nat x - below I (Z.of_nat x) = Z.of_nat (freec I x))%Z.
+Proof.
+  intros Hn. unfold below.
+  rewrite (filter_ext (fun i => (Z.of_nat i <? Z.of_nat x)%Z) (fun i => i <? x)).
+  2:{ intros a. destruct (Z.ltb_spec (Z.of_nat a) (Z.of_nat x)), (Nat.ltb_spec a x); try reflexivity; lia. }
+  assert (G : length (filter (fun i => i <? x) I) + freec I x = x).
+  { induction x as [|x IH].
+    - unfold freec, nvis. simpl. rewrite Nat.add_0_r.
+      induction I as [|a I IHI]; [reflexivity|]. simpl. inversion Hn; subst. apply IHI. assumption.
+    - rewrite count_lt_S by exact Hn. rewrite freec_S. destruct (memb x I); lia. }
+  lia.
+Qed.
+
+Lemma filter_seq_idx (f : nat -> bool) a k : forall j, j < length (filter f (seq a k)) ->
+  let v := nth j (filter f (seq a k)) 0 in
+  a <= v /\ v < a + k /\ length (filter f (seq a (v - a))) = j.
+Proof.
+  induction k as [|k IH]; intros j Hj; cbv zeta; [simpl in Hj; lia|].
+  rewrite seq_S, filter_app in *. rewrite app_length in Hj.
+  destruct (lt_dec j (length (filter f (seq a k)))) as [Hl|Hl].
+  - rewrite app_nth1 by exact Hl. specialize (IH j Hl). cbv zeta in IH. lia.
+  - simpl in Hj |- *. destruct (f (a + k)) eqn:E; simpl in Hj; [|lia].
+    rewrite app_nth2 by lia. replace (j - length (filter f (seq a k))) with 0 by lia. simpl.
+    replace (a + k - a) with k by lia. lia.
+Qed.
+
+Lemma visible_from_rank n I m j : j < length (visible_from n I m) ->
+  let v := nth j (visible_from n I m) 0 in
+  m <= v /\ v < n /\ ~ In v I /\ freec I v = freec I m + j.
+Proof.
+  intros Hj v.
+  assert (Hv : In v (visible_from n I m)) by (apply nth_In, Hj).
+  apply visible_from_in in Hv as (H1 & H2 & H3).
+  split; [exact H1|]. split; [exact H2|]. split; [exact H3|].
+  destruct (filter_seq_idx (not_in I) m (n - m) j Hj) as (_ & _ & G). fold (visible_from n I m) in G. fold v in G.
+  unfold freec, nvis. replace v with (m + (v - m)) at 1 by lia. rewrite seq_app, filter_app, app_length.
+  simpl. f_equal. exact G.
+Qed.
+
+Lemma visible_from_map_mode {K : Type} (c : circ (K:=K)) (mode : Z) (m : nat) :
+  NoDup (c_int c) -> mode_ok c (map_mode (c_int c) mode) = Ok m ->
+  forall j, j < length (visible_from (c_n c) (c_int c) m) ->
+    nth j (visible_from (c_n c) (c_int c) m) 0 = Z.to_nat (map_mode (c_int c) (mode + Z.of_nat j)).
+Proof.
+  intros Hn Hm j Hj.
+  destruct (visible_from_rank _ _ _ _ Hj) as (_ & _ & Hv & Hf).
+  set (v := nth j (visible_from (c_n c) (c_int c) m) 0) in *.
+  assert (E0 : map_mode (c_int c) mode = Z.of_nat m).
+  { unfold mode_ok, in_range in Hm.
+    destruct ((0 <=? map_mode (c_int c) mode)%Z && (map_mode (c_int c) mode <? Z.of_nat (c_n c))%Z) eqn:E; [|discriminate].
+    injection Hm as <-. apply andb_true_iff in E as [E1 _]. apply Z.leb_le in E1. lia. }
+  destruct (map_mode_spec (c_int c) mode Hn) as (_ & S0 & _). cbv zeta in S0. rewrite E0 in S0.
+  rewrite below_freec in S0 by exact Hn.
+  destruct (map_mode_spec (c_int c) (mode + Z.of_nat j) Hn) as (R1 & R2 & R3). cbv zeta in R1, R2, R3.
+  set (r := map_mode (c_int c) (mode + Z.of_nat j)) in *.
+  assert (Hr : (0 <= r)%Z) by lia.
+  assert (Er : r = Z.of_nat (Z.to_nat r)) by lia.
+  rewrite Er in R2. rewrite below_freec in R2 by exact Hn.
+  apply (freec_inj (c_int c)).
+  - exact Hv.
+  - intros Hin. apply (R1 _ Hin). lia.
+  - lia.
+Qed.
+
 (* ---------- the order-preserving part of the wiring (pure index arithmetic) ---------- *)
 Lemma sigma_enum n (outs ins : list nat) (sw : dict) :
   NoDup outs -> length outs = length ins ->
